@@ -57,6 +57,9 @@ class LifeTransport(FakeTransport):
             raise TransportError("injected disconnect failure")
 
 
+STREAM_STATE: dict[int, dict] = {}
+
+
 def make_transport(kind: str, connect_fail: bool, disconnect_fail: bool):
     """Returns (transport, counters()) for the built-in kinds over fakes."""
     if kind == "fake":
@@ -82,7 +85,7 @@ def make_transport(kind: str, connect_fail: bool, disconnect_fail: bool):
             return state["r"], state["w"]
 
         tr = TCPTransport("host.invalid") if kind == "tcp" else SerialTransport("/dev/null-verif")
-        tr.verif_state = state
+        STREAM_STATE[id(tr)] = state       # (kept beside the transport object, not on it)
         patches = [mock.patch("asyncio.open_connection", factory),
                    mock.patch("aiomysensors.transport.serial.open_serial_connection", factory)]
         return tr, (lambda: (state["c"], 1 if (state["w"] is not None and state["w"].closed) else 0)), patches
@@ -140,7 +143,10 @@ class LifeRun:
                     if scen.get("prior_saver_died") and pers is not None:
                         # the background saver of that earlier session fails (its file cannot be written) and ends
                         os.makedirs(bad_dir, exist_ok=True)
-                        pers.path = bad_dir
+                        try:
+                            pers.path = bad_dir
+                        except Exception:  # noqa: BLE001 - a persistence object whose path cannot be redirected: plain earlier session
+                            pass
                     await asyncio.sleep(0)
             t0 = self.loop.create_task(prior(), name="main")
             guard = 0
@@ -154,7 +160,10 @@ class LifeRun:
             if t0.done() and not t0.cancelled() and t0.exception() is not None:
                 self.prior_error = type(t0.exception()).__name__
             if scen.get("prior_saver_died") and pers is not None:
-                pers.path = self.path        # the file is writable again for the session under observation
+                try:
+                    pers.path = self.path        # the file is writable again for the session under observation
+                except Exception:  # noqa: BLE001
+                    pass
             if scen["transport"] == "fake":
                 self.transport.connected = 0
                 self.transport.disconnected = 0
@@ -191,7 +200,7 @@ class LifeRun:
                 if how == "eof":
                     # the peer closes the connection cleanly; the application's read fails with the transport's
                     # error and leaves the context through it
-                    self.transport.verif_state["r"].feed_eof()
+                    STREAM_STATE[id(self.transport)]["r"].feed_eof()
                     await self.gateway.transport.read()
         finally:
             self.inside = False
